@@ -29,7 +29,9 @@ UNITS["parents"] = {
         {"kind": "fn", "file": "layer", "name": "from_vec", "impl_of": "LayersData", "ret": "res",
          "requires": "        layers.len() <= u32::MAX,",
          "ensures": ("        res is Ok ==> parents_ok(res->Ok_0.layers@, res->Ok_0.parents@) && first_is_root(res->Ok_0.layers@)"
-                     " && res->Ok_0.layers@ == layers@,"),
+                     " && res->Ok_0.layers@ == layers@,\n"
+                     "        // cel ids store the layer as u16: a sprite with more than 65536 layers is refused (C19 / C05: no aliasing of layer ids)\n"
+                     "        res is Ok ==> layers@.len() <= 65536,"),
          },
     ],
 }
@@ -620,7 +622,7 @@ impl CelsData {
 }
 /// what loading establishes: one row per frame, frame and layer counts fit the 16-bit cel coordinates
 pub open spec fn file_wf(f: &AsepriteFile) -> bool {
-    f.framedata.data.len() == f.num_frames as int && f.layers.layers.len() <= 65535
+    f.framedata.data.len() == f.num_frames as int && f.layers.layers.len() <= 65536
 }
 """},
         {"kind": "fn", "file": "cel", "name": "cel", "key": "CelsData::cel", "impl_of": "CelsData", "impl_filter": r"impl<P>\s+CelsData<P>", "impl_header": "CelsData", "ret": "r",
@@ -630,7 +632,7 @@ pub open spec fn file_wf(f: &AsepriteFile) -> bool {
                      "        r is Some ==> *(r->0) == self.at(cel_id.frame as int, cel_id.layer as int)->0,")},
         {"kind": "fn", "file": "file", "name": "num_frames", "impl_of": "AsepriteFile", "ret": "r", "ensures": "        r == self.num_frames as u32,"},
         {"kind": "fn", "file": "file", "name": "num_layers", "impl_of": "AsepriteFile", "ret": "r",
-         "requires": "        self.layers.layers.len() <= 65535,", "ensures": "        r as int == self.layers.layers.len(),"},
+         "requires": "        self.layers.layers.len() <= 65536,", "ensures": "        r as int == self.layers.layers.len(),"},
         {"kind": "fn", "file": "file", "name": "cel", "key": "AsepriteFile::cel", "impl_of": "AsepriteFile", "ret": "r",
          "requires": "        file_wf(self), frame < self.num_frames as u32, (layer as int) < self.layers.layers.len(),",
          "ensures": "        r.cel_id.frame as u32 == frame, r.cel_id.layer as u32 == layer, r.file == self,"},
@@ -1425,9 +1427,9 @@ UNITS["compose"] = {
          "ensures": ("        (r is Some) == (self.at(cel_id.frame as int, cel_id.layer as int) is Some),\n"
                      "        r is Some ==> *(r->0) == self.at(cel_id.frame as int, cel_id.layer as int)->0,")},
         {"kind": "fn", "file": "file", "name": "num_layers", "impl_of": "AsepriteFile", "ret": "r",
-         "requires": "        self.layers.layers.len() <= 65535,", "ensures": "        r as int == self.layers.layers.len(),"},
+         "requires": "        self.layers.layers.len() <= 65536,", "ensures": "        r as int == self.layers.layers.len(),"},
         {"kind": "fn", "file": "file", "name": "layer", "key": "AsepriteFile::layer", "impl_of": "AsepriteFile", "ret": "r",
-         "requires": "        self.layers.layers.len() <= 65535, (id as int) < self.layers.layers.len(),",
+         "requires": "        self.layers.layers.len() <= 65536, (id as int) < self.layers.layers.len(),",
          "ensures": "        r.layer_id == id, r.file == self,"},
         {"kind": "fn", "file": "file", "name": "tilesets", "impl_of": "AsepriteFile", "ret": "r", "ensures": "        r == &self.tilesets,"},
         {"kind": "fn", "file": "file", "name": "write_cel", "impl_of": "AsepriteFile", "rules": ["R1", "R6", "R14", "R15"],
@@ -1964,5 +1966,63 @@ pub open spec fn seen(rem: Seq<(&u32, &ColorPaletteEntry)>, j: int, m: u32) -> b
                      "        alpha == 255 ==> res == (if self.map@.contains_key(pack(r, g, b) as u32) { self.map@[pack(r, g, b) as u32] } else { self.failure }),"),
          "hints": [("let m =",
                     "        assert(((g as u32) << 8) == 256 * (g as u32) && ((b as u32) << 16) == 65536 * (b as u32)) by (bit_vector);", "before")]},
+    ],
+}
+
+
+# ------------------------------------------------------------------------------------------------
+# AsepriteFile::tilemap and the Tilemap size accessors (C05 / C08): no division by zero, the assert! cannot fire,
+# Some exactly for tilemap cels of tilemap layers whose tileset exists; logical size = ceil(canvas / tile size)
+# ------------------------------------------------------------------------------------------------
+UNITS["tilemap_api"] = {
+    "prelude_sections": UNITS["compose"]["prelude_sections"],
+    "items": [it for it in UNITS["compose"]["items"] if not (it.get("kind") == "fn" and it["name"] in ("frame_image", "layer_image", "write_cel", "write_raw_cel_to_image", "write_tilemap_cel_to_image", "tile_slice"))] + [
+        {"kind": "struct", "file": "cel", "name": "Cel", "keep": None},
+        {"kind": "struct", "file": "tilemap", "name": "Tilemap", "keep": None},
+        {"kind": "fn", "file": "tileset", "name": "from", "key": "TileSize::into_pair", "impl_of": "TileSize", "impl_filter": r"impl From<TileSize> for \(u32, u32\)", "impl_header": "From<TileSize> for (u32, u32)", "ret": "r"},
+        {"kind": "verbatim", "text": """
+/// spec side of `impl From<TileSize> for (u32, u32)` (annotation: the exec `from` above is checked against it)
+impl vstd::std_specs::convert::FromSpecImpl<TileSize> for (u32, u32) {
+    open spec fn obeys_from_spec() -> bool { true }
+    open spec fn from_spec(sz: TileSize) -> Self { (sz.width as u32, sz.height as u32) }
+}
+pub open spec fn ceil_div(a: int, b: int) -> int { (a + b - 1) / b }
+"""},
+        {"kind": "fn", "file": "file", "name": "num_frames", "impl_of": "AsepriteFile", "ret": "r", "ensures": "        r == self.num_frames as u32,"},
+        {"kind": "fn", "file": "file", "name": "width", "key": "AsepriteFile::width", "impl_of": "AsepriteFile", "ret": "r", "ensures": "        r == self.width as usize,"},
+        {"kind": "fn", "file": "file", "name": "height", "key": "AsepriteFile::height", "impl_of": "AsepriteFile", "ret": "r", "ensures": "        r == self.height as usize,"},
+        {"kind": "fn", "file": "file", "name": "cel", "key": "AsepriteFile::cel", "impl_of": "AsepriteFile", "ret": "r",
+         "requires": "        self.layers.layers.len() <= 65536, frame < self.num_frames as u32, (layer as int) < self.layers.layers.len(),",
+         "ensures": "        r.cel_id.frame as u32 == frame, r.cel_id.layer as u32 == layer, r.file == self,"},
+        {"kind": "fn", "file": "cel", "name": "raw_cel", "impl_of": "Cel", "impl_header": "<'a> Cel<'a>", "ret": "r",
+         "requires": "        (self.cel_id.frame as int) < self.file.framedata.data.len(),",
+         "ensures": ("        (r is Some) == (self.file.framedata.at(self.cel_id.frame as int, self.cel_id.layer as int) is Some),\n"
+                     "        r is Some ==> *(r->0) == self.file.framedata.at(self.cel_id.frame as int, self.cel_id.layer as int)->0,")},
+        {"kind": "fn", "file": "cel", "name": "is_tilemap", "key": "Cel::is_tilemap", "impl_of": "Cel", "impl_header": "<'a> Cel<'a>", "ret": "r",
+         "requires": "        (self.cel_id.frame as int) < self.file.framedata.data.len(),",
+         "ensures": "        r == (self.file.framedata.at(self.cel_id.frame as int, self.cel_id.layer as int) is Some && self.file.framedata.at(self.cel_id.frame as int, self.cel_id.layer as int)->0.content is Tilemap),"},
+        {"kind": "fn", "file": "file", "name": "tilemap", "key": "AsepriteFile::tilemap", "impl_of": "AsepriteFile", "ret": "r", "rules": ["R1", "R6"],
+         "hints": [("let h = (pixel_height + tile_height - 1) / tile_height;",
+                    "                assert((1u32 << 16) == 65536u32) by (bit_vector);\n"
+                    "                assert(((pixel_width + tile_width - 1) as int) / (tile_width as int) <= 65535) by (nonlinear_arith)\n"
+                    "                    requires 0 <= (pixel_width as int) <= 65535, 1 <= (tile_width as int) <= 65535, (pixel_width + tile_width - 1) as int == pixel_width as int + tile_width as int - 1;\n"
+                    "                assert(((pixel_height + tile_height - 1) as int) / (tile_height as int) <= 65535) by (nonlinear_arith)\n"
+                    "                    requires 0 <= (pixel_height as int) <= 65535, 1 <= (tile_height as int) <= 65535, (pixel_height + tile_height - 1) as int == pixel_height as int + tile_height as int - 1;", "after")],
+         "requires": ("        file_ok(self),\n"
+                      "        // established when a tileset chunk is parsed (dec_tileset: tile size >= 1)\n"
+                      "        forall|id: u32| self.tilesets.map().dom().contains(id) ==> (#[trigger] self.tilesets.map()[id]).tile_size.width >= 1 && self.tilesets.map()[id].tile_size.height >= 1,"),
+         "ensures": ("        r is Some <==> ((layer_id as int) < self.layers.layers.len() && frame < self.num_frames as u32\n"
+                     "            && self.layers.layers[layer_id as int].layer_type is Tilemap\n"
+                     "            && self.tilesets.map().dom().contains(self.layers.layers[layer_id as int].layer_type->Tilemap_0)\n"
+                     "            && self.framedata.at(frame as int, layer_id as int) is Some && self.framedata.at(frame as int, layer_id as int)->0.content is Tilemap),\n"
+                     "        r is Some ==> ({ let ts = self.tilesets.map()[self.layers.layers[layer_id as int].layer_type->Tilemap_0];\n"
+                     "            &&& *(r->0).tileset == ts && (r->0).cel.file == self && (r->0).cel.cel_id.frame as u32 == frame && (r->0).cel.cel_id.layer as u32 == layer_id\n"
+                     "            // the logical size covers the whole canvas: ceil(canvas / tile size) tiles\n"
+                     "            &&& (r->0).logical_size.0 as int == ceil_div(self.width as int, ts.tile_size.width as int)\n"
+                     "            &&& (r->0).logical_size.1 as int == ceil_div(self.height as int, ts.tile_size.height as int) }),")},
+        {"kind": "fn", "file": "tilemap", "name": "width", "key": "Tilemap::width", "impl_of": "Tilemap", "impl_header": "<'a> Tilemap<'a>", "ret": "r", "ensures": "        r == self.logical_size.0 as u32,"},
+        {"kind": "fn", "file": "tilemap", "name": "height", "key": "Tilemap::height", "impl_of": "Tilemap", "impl_header": "<'a> Tilemap<'a>", "ret": "r", "ensures": "        r == self.logical_size.1 as u32,"},
+        {"kind": "fn", "file": "tilemap", "name": "tile_size", "key": "Tilemap::tile_size", "impl_of": "Tilemap", "impl_header": "<'a> Tilemap<'a>", "ret": "r",
+         "ensures": "        r == (self.tileset.tile_size.width as u32, self.tileset.tile_size.height as u32),"},
     ],
 }
